@@ -24,7 +24,7 @@ SPEC = {
     "modules": ["HC.Props.C05"],
     "extracted": ["Guards", "Consts", "H11Tables", "AppExit", "ReqGlue"],
     "technique": "Lean 4 theorems on (a) the try/except/finally of both workers' _handle as read off the source (every way the application can end - return, exception, cancellation, exception groups - signals completion; a raise is logged once and contained), (b) the stream transducers (exit in REQUEST/HANDSHAKE => exactly a complete 500 then stream-closed; exit after the start => stream-closed with no end-of-body; a refused message starts nothing, in the model and in the statement order of the REQUEST-state branches of the source) composed with the h11 recycle rule (no EndOfMessage => our side is not DONE => Closed) and the HTTP/2 reset rule, (c) the WebSocket stream transducer run over ARBITRARY interleavings of application messages (accepted or refused) and client input and then the application's end: an invariant tying the counts of response heads / ends of body / close frames handed to the protocol to self.state and wsproto's connection state, by induction over the operation list, and the statement order of the CONNECTED-state websocket.close branch read off the source (state only once the close frame exists, CLOSED before the first await after that); tied by an exhaustive crash-point grid on both workers judged by independent client parsers, a WebSocket state sweep over both carriers and a stream-level differential of the WebSocket exit step",
-    "level_text": "Proved in Lean for every state of a request: however the application ends (returns, raises an exception or an exception group, is cancelled) the try statement of _handle on both workers - extracted from the source on every run - signals completion, logs a raise exactly once before doing so and lets no exception but a cancellation travel further; when the application finishes before a response start, the protocol layer is handed exactly a complete 500 response (content-length 0, connection: close), one access record and stream-closed; a message the stream refuses (invalid headers or status, wrong state: the exception is raised into the application) hands nothing to the protocol and leaves the stream where it was, so dying with that exception is answered 500 before the start and aborts after it - proved for the model and, as statement order (state is assigned only after the Response event was handed over), for the source's REQUEST-state branches; when the application finishes after the start but before the end - mid-body, or with its whole body sent and the trailers it announced (trailers: True) still outstanding (state TRAILERS) - the protocol is handed stream-closed and never an end-of-body: proved for the model and for the source's `message is None` branch, which is read off the source on every run and evaluated state by state (httpExitActs; exit_branch_is_source: the model's completion step IS the source's in all four states; source_exit_never_completes: in RESPONSE and TRAILERS no statement that completes or continues a response), so on HTTP/1 h11's writer is not DONE and the connection is closed instead of recycled (the response stays visibly incomplete), and on HTTP/2 the stream is reset - and the reset does not wait for the peer's flow-control credit: the guard and the statements of H2Protocol._reset_abandoned_response are read off the source on every run (h2AbandonGuard, h2AbandonSteps), none of them is a buffer.drain() or an unknown await (h2_abandon_path_waits_only_for_transport), so the function returns from every state of the stream (h2_abandon_path_returns), the two ops of the send-path model H2Send that stand for it are exactly these statements (h2_abandon_model_is_source), and in that model - which has the buffer, both windows and the send task - the reset step is enabled in every state, whatever is buffered and whatever the windows are (h2_abandoned_reset_needs_no_credit); a WebSocket gets 500 in the handshake and close 1011 when connected - proved over the WebSocket stream model for EVERY sequence of application messages, accepted or refused, of every type in every state (and any client input in between) followed by the application's end: the events handed to the protocol (the same for the HTTP/1.1 and the HTTP/2 carrier) contain at most one response head, one end of body and one close frame over the stream's whole life, and the end adds exactly the 500 (handshake unanswered), nothing but stream-closed (rejection started or complete, close frame already sent - by the application, as 1009, or as the echo of the client's close) or exactly the 1011 close frame (connected, none sent yet); a refused message of any type hands nothing over and moves nothing; in particular a websocket.close no close frame can be built from (int(code) raises, code outside 0..65535, reason not a str - by cases on the refusal, for all codes and reasons) leaves the stream CONNECTED, and the source's branch assigns CLOSED only once the frame exists and before its first await (statement order extracted on every run; repair of F63).  HTTP/1 protocol layer (H11Protocol model): a send h11 refuses puts its writer into ERROR (refused_send_poisons) and from then on NO _send_h11_event raises, whatever the event - the body an application goes on sending, a retried start, the 500 of app_send(None) when it dies (errored_send_never_raises, refused_then_nothing_raises; repair b7999be / F100): only the refusal itself reaches the application, the failure that follows cannot end the connection handler with an error.  Tie: every step index of seven scripted applications (two of them announce trailers: the crash points after the last body message and between two trailers messages are in state TRAILERS) (the point after completion included) x {raise, return, cancel, refused message} with every variant of each (bare / group exception; cancelled inner await / own task cancelled; every refusal hypercorn makes in the state reached) on HTTP/1.1 (with a pipelined follower), HTTP/2 (with a sibling stream that must complete) and WebSocket, both workers; on HTTP/2 every crash point again with the failing stream's window closed to (part of) what the application wrote (SETTINGS_INITIAL_WINDOW_SIZE 0 / 4 / 2, or the default window used up by a 70000-byte body) by a client that returns connection credit, serves the sibling stream and sends no WINDOW_UPDATE for the failing stream for one (virtual) second: by then the reset / the 500 must have arrived, the sibling must be complete and the server must have released the stream (access record); verdicts by independent h11/h2 parsers; exactly one error-log record per raise; a message the PROTOCOL layer refuses (h11: status 101 without an upgrade proposal, status outside its ranges, body beyond / end short of the declared content-length, the end of a response that only has an interim head; h2: a te response header) x what the application does next (dies, gives up, goes on sending, goes on and dies, retries with a valid start, retries and dies) x both workers: the handler never ends with an exception, a dying application is logged once, a complete response at the client is the 500 or exactly what the accepted messages describe, everything else ends closed / reset with the sibling unharmed; stream-level model/implementation correspondence of the exit step after each refused message (HTTP and WebSocket streams); WebSocket state sweep: every state of the stream (handshake, rejection announced / head refused, connected, connected after a survived refusal, rejection started, rejection complete, denied 403, closed) x {raise, return, every message the stream refuses there} x {HTTP/1.1 upgrade, HTTP/2 extended CONNECT} x both workers, judged by an independent wsproto / h11 / h2 client.",
+    "level_text": "Proved in Lean for every state of a request: however the application ends (returns, raises an exception or an exception group, is cancelled) the try statement of _handle on both workers - extracted from the source on every run - signals completion, logs a raise exactly once before doing so and lets no exception but a cancellation travel further; when the application finishes before a response start, the protocol layer is handed exactly a complete 500 response (content-length 0, connection: close), one access record and stream-closed; a message the stream refuses (invalid headers or status, wrong state: the exception is raised into the application) hands nothing to the protocol and leaves the stream where it was, so dying with that exception is answered 500 before the start and aborts after it - proved for the model and, as statement order (state is assigned only after the Response event was handed over), for the source's REQUEST-state branches; when the application finishes after the start but before the end - mid-body, or with its whole body sent and the trailers it announced (trailers: True) still outstanding (state TRAILERS) - the protocol is handed stream-closed and never an end-of-body: proved for the model and for the source's `message is None` branch, which is read off the source on every run and evaluated state by state (httpExitActs; exit_branch_is_source: the model's completion step IS the source's in all four states; source_exit_never_completes: in RESPONSE and TRAILERS no statement that completes or continues a response), so on HTTP/1 h11's writer is not DONE and the connection is closed instead of recycled (the response stays visibly incomplete), and on HTTP/2 the stream is reset - and the reset does not wait for the peer's flow-control credit: the guard and the statements of H2Protocol._reset_abandoned_response are read off the source on every run (h2AbandonGuard, h2AbandonSteps), none of them is a buffer.drain() or an unknown await (h2_abandon_path_waits_only_for_transport), so the function returns from every state of the stream (h2_abandon_path_returns), the two ops of the send-path model H2Send that stand for it are exactly these statements (h2_abandon_model_is_source), and in that model - which has the buffer, both windows and the send task - the reset step is enabled in every state, whatever is buffered and whatever the windows are (h2_abandoned_reset_needs_no_credit); a WebSocket gets 500 in the handshake and close 1011 when connected - proved over the WebSocket stream model for EVERY sequence of application messages, accepted or refused, of every type in every state (and any client input in between) followed by the application's end: the events handed to the protocol (the same for the HTTP/1.1 and the HTTP/2 carrier) contain at most one response head, one end of body and one close frame over the stream's whole life, and the end adds exactly the 500 (handshake unanswered), nothing but stream-closed (rejection started or complete, close frame already sent - by the application, as 1009, or as the echo of the client's close) or exactly the 1011 close frame (connected, none sent yet); a refused message of any type hands nothing over and moves nothing; in particular a websocket.close no close frame can be built from (int(code) raises, code outside 0..65535, reason not a str - by cases on the refusal, for all codes and reasons) leaves the stream CONNECTED, and the source's branch assigns CLOSED only once the frame exists and before its first await (statement order extracted on every run; repair of F63).  HTTP/1 protocol layer (H11Protocol model): a send h11 refuses puts its writer into ERROR (refused_send_poisons) and from then on NO _send_h11_event raises, whatever the event - the body an application goes on sending, a retried start, the 500 of app_send(None) when it dies (errored_send_never_raises, refused_then_nothing_raises; repair 42763b6 / F100): only the refusal itself reaches the application, the failure that follows cannot end the connection handler with an error.  Tie: every step index of seven scripted applications (two of them announce trailers: the crash points after the last body message and between two trailers messages are in state TRAILERS) (the point after completion included) x {raise, return, cancel, refused message} with every variant of each (bare / group exception; cancelled inner await / own task cancelled; every refusal hypercorn makes in the state reached) on HTTP/1.1 (with a pipelined follower), HTTP/2 (with a sibling stream that must complete) and WebSocket, both workers; on HTTP/2 every crash point again with the failing stream's window closed to (part of) what the application wrote (SETTINGS_INITIAL_WINDOW_SIZE 0 / 4 / 2, or the default window used up by a 70000-byte body) by a client that returns connection credit, serves the sibling stream and sends no WINDOW_UPDATE for the failing stream for one (virtual) second: by then the reset / the 500 must have arrived, the sibling must be complete and the server must have released the stream (access record); verdicts by independent h11/h2 parsers; exactly one error-log record per raise; a message the PROTOCOL layer refuses (h11: status 101 without an upgrade proposal, status outside its ranges, body beyond / end short of the declared content-length, the end of a response that only has an interim head; h2: a te response header) x what the application does next (dies, gives up, goes on sending, goes on and dies, retries with a valid start, retries and dies) x both workers: the handler never ends with an exception, a dying application is logged once, a complete response at the client is the 500 or exactly what the accepted messages describe, everything else ends closed / reset with the sibling unharmed; stream-level model/implementation correspondence of the exit step after each refused message (HTTP and WebSocket streams); WebSocket state sweep: every state of the stream (handshake, rejection announced / head refused, connected, connected after a survived refusal, rejection started, rejection complete, denied 403, closed) x {raise, return, every message the stream refuses there} x {HTTP/1.1 upgrade, HTTP/2 extended CONNECT} x both workers, judged by an independent wsproto / h11 / h2 client.",
     "level_note": "Trusted: Lean kernel; stream models and H11Protocol model (differential runs in C12/C06); the extractor's reading of _handle and of the REQUEST-state branches (unrecognised statements are an EXTRACT-FAIL); h11 framing decides whether an aborted body is visibly incomplete: a response whose whole declared content-length was already written, or a close-delimited HTTP/1.0 body, cannot be distinguished from a complete one by any client and is outside the statement; the HTTP/2 reset rule is the code path added by the F06 repair; the WebSocket model's close message carries the RESULT of int(code) (value or raised class - the language's own conversion, computed by the harness) and wsproto's refusals while serialising a close frame (code outside 0..65535, reason without encode) are modelled (Ws.closeFrame) and tied by the differential runs of C05 and C12; on HTTP/2 the stream-level theorems speak about the events handed to H2Protocol - what H2Protocol does with StreamClosed for a WebSocket stream is the known finding F110.",
     "rule": "script family x crash index x kind (raise / return / cancel / refused message) x variant x protocol x worker (exhaustive grid for the canonical variant, all variants on a sweep reaching every response state: REQUEST / RESPONSE / TRAILERS / CLOSED); HTTP/2 additionally x {request body still in flight} and x {flow-control window of the failing stream: 0, 2, 4 bytes, or the default window used up by a 70000-byte body; no WINDOW_UPDATE for that stream before the bound}; protocol-refused message x continuation x protocol x worker (exhaustive); WebSocket: stream state x end (raise / return / each refused message of the state) x carrier x worker, exhaustive; distinct = each grid cell; non-trivial = the application ends before completing its response or dies after it",
     "trusted": ["h11 / h2 client parsers as the client's verdict"],
